@@ -160,6 +160,17 @@ def run(ctx):
                 ifs = v.generators[0].ifs
                 kn, vn = [e.id for e in v.generators[0].target.elts]
                 kok = src(v.key) == kn and src(v.value) == vn and all(isinstance(i, ast.Call) and call_name(i) == "keep_arg" for i in ifs) and len(ifs) <= 1
+                # the filter must be asked about the keyword's own name and value: a keyword argument binds to the parameter of that name
+                for i in ifs:
+                    if isinstance(i, ast.Call) and call_name(i) == "keep_arg":
+                        r2.check(
+                            len(i.args) == 2 and src(i.args[0]) == kn and src(i.args[1]) == vn,
+                            f"{tm.rel}:hash_args_eval:kwargs-filter-name",
+                            f"keyword arguments are filtered by `{src(i)}` instead of keep_arg({kn}, {vn}): the config-args test is applied to a different name than the parameter the keyword binds to, "
+                            "so a real parameter can drop out of the key (two calls differing only in it share a cache entry) or a declared config arg can enter it",
+                            tm.rel,
+                            i.lineno,
+                        )
         r2.check(kok or src(kv) == "kwargs", f"{tm.rel}:hash_args_eval:kwargs-flow", "keyword arguments do not all reach the key (filtered by something other than keep_arg, or renamed)", tm.rel, hae.lineno)
         # positional flow: every comprehension/extension feeding <args2> ranges over args and filters only through keep_arg / config test
         feeders = []
